@@ -20,6 +20,7 @@ import (
 
 	"github.com/snapcore/snapd/internal/verifsim"
 	"github.com/snapcore/snapd/overlord/auth"
+	"github.com/snapcore/snapd/overlord/configstate/config"
 	"github.com/snapcore/snapd/overlord/snapstate"
 	"github.com/snapcore/snapd/overlord/snapstate/snapstatetest"
 	"github.com/snapcore/snapd/overlord/state"
@@ -129,23 +130,30 @@ func verifBodyC14(s *verifEngC, gc *check.C) {
 	s.wrapHandlers()
 	// alias-snap is the fixture's snap with applications, so that alias
 	// changes on it succeed and alter the record's alias table
-	names := []string{"some-snap", "some-other-snap", "alias-snap"}
-	ids := map[string]string{"some-snap": "some-snap-id", "some-other-snap": "some-other-snap-id", "alias-snap": "alias-snap-id"}
+	// some-snap_foo is a parallel instance of some-snap: a snap of its own as far
+	// as changes are concerned
+	names := []string{"some-snap", "some-other-snap", "alias-snap", "some-snap_foo"}
+	ids := map[string]string{"some-snap": "some-snap-id", "some-other-snap": "some-other-snap-id", "alias-snap": "alias-snap-id", "some-snap_foo": "some-snap-id"}
 	// requests may also name a snap that is not installed at the start
 	reqNames := []string{"some-snap", "some-other-snap", "alias-snap", "some-new-snap"}
 	nextRev := map[string]int{}
 
 	st.Lock()
+	trpi := config.NewTransaction(st)
+	trpi.Set("core", "experimental.parallel-instances", true)
+	trpi.Commit()
 	snapstate.ReplaceStore(st, &verifYieldStore{fakeStore: s.fakeStore, s: s})
 	for _, n := range names {
 		nk := 1 + c.Draw("initial-kept", 2)
 		var sis []*snap.SideInfo
 		for i := 1; i <= nk; i++ {
-			sis = append(sis, &snap.SideInfo{RealName: n, SnapID: ids[n], Revision: snap.R(i)})
+			rn, _ := snap.SplitInstanceName(n)
+			sis = append(sis, &snap.SideInfo{RealName: rn, SnapID: ids[n], Revision: snap.R(i)})
 		}
 		nextRev[n] = nk + 1
+		_, ikey := snap.SplitInstanceName(n)
 		snapstate.Set(st, n, &snapstate.SnapState{Active: true, Sequence: snapstatetest.NewSequenceFromSnapSideInfos(sis),
-			TrackingChannel: "latest/stable", Current: sis[len(sis)-1].Revision, SnapType: "app"})
+			TrackingChannel: "latest/stable", Current: sis[len(sis)-1].Revision, SnapType: "app", InstanceKey: ikey})
 	}
 	st.Unlock()
 	s.fakeStore.refreshRevnos = map[string]snap.Revision{}
@@ -170,7 +178,13 @@ func verifBodyC14(s *verifEngC, gc *check.C) {
 		r := &verifReq{id: issued, snapName: n, snaps: []string{n}, kind: kind, done: make(chan struct{})}
 		issued++
 		if kind == "refresh-many" || kind == "remove-many" {
-			r.snaps = append([]string(nil), names...)
+			// (the parallel instance stays out of multi-snap requests: with two
+			// instances of one snap-id in one request the fixture's store makes
+			// the order of the task sets depend on Go's map order)
+			r.snaps = append([]string(nil), names[:3]...)
+			if n == names[3] {
+				r.snaps = []string{n}
+			}
 			if c.Draw("many-subset", 3) == 1 {
 				r.snaps = []string{n}
 			}
@@ -316,7 +330,13 @@ func verifBodyC14(s *verifEngC, gc *check.C) {
 					// conflicting one stay behind, linked to no change
 					cls += ":unlinked-tasks-left-by-refused-multi-snap-" + r.kind
 				}
-				c.Violate(cls, "request #%d (%s %v) was refused (%v) but left %d new tasks (%d of them linked to a change) and %d new changes", r.id, r.kind, r.snaps, r.err, r.tasks1-r.tasks0, r.linked1-r.linked0, r.chgs1-r.chgs0)
+				if cls != "C14/refused-request-created-something" {
+					// (how many depends on the order in which snapd walks the snaps of the
+					// request - a Go map - so the number is left out of the record)
+					c.Violate(cls, "request #%d (%s %v) was refused with a conflict error but left new tasks behind, linked to no change; no new change", r.id, r.kind, r.snaps)
+				} else {
+					c.Violate(cls, "request #%d (%s %v) was refused (%v) but left %d new tasks (%d of them linked to a change) and %d new changes", r.id, r.kind, r.snaps, r.err, r.tasks1-r.tasks0, r.linked1-r.linked0, r.chgs1-r.chgs0)
+				}
 			}
 		}
 		if r.startJSON != r.endJSON {
